@@ -128,6 +128,7 @@ static int is_valid_acf_packet(uint8_t* acf_pdu)
 static int new_packet(int sk_fd, int can_socket) {
 
     int res = 0;
+    ssize_t pdu_length;
     uint64_t proc_bytes = 0, msg_proc_bytes = 0;
     uint32_t udp_seq_num;
     uint16_t msg_length, can_payload_length, acf_msg_length;
@@ -141,6 +142,12 @@ static int new_packet(int sk_fd, int can_socket) {
     res = recv(sk_fd, pdu, MAX_PDU_SIZE, 0);
     if (res < 0 || res > MAX_PDU_SIZE) {
         perror("Failed to receive data");
+        return 0;
+    }
+    pdu_length = res;
+
+    // The datagram must at least hold the headers that are parsed below
+    if (pdu_length < (ssize_t)((use_udp ? AVTP_UDP_HEADER_LEN : 0) + AVTP_COMMON_HEADER_LEN)) {
         return 0;
     }
 
@@ -161,13 +168,25 @@ static int new_packet(int sk_fd, int can_socket) {
 
     if (subtype == AVTP_SUBTYPE_TSCF){
         proc_bytes += AVTP_TSCF_HEADER_LEN;
+        if ((uint64_t)pdu_length < proc_bytes) return 0;
         msg_length = Avtp_Tscf_GetStreamDataLength((Avtp_Tscf_t*)cf_pdu);
     } else {
         proc_bytes += AVTP_NTSCF_HEADER_LEN;
+        if ((uint64_t)pdu_length < proc_bytes) return 0;
         msg_length = Avtp_Ntscf_GetNtscfDataLength((Avtp_Ntscf_t*)cf_pdu);
     }
 
+    // The announced ACF payload must be inside the received datagram
+    if (proc_bytes + msg_length > (uint64_t)pdu_length) {
+        return 0;
+    }
+
     while (msg_proc_bytes < msg_length) {
+
+        // A complete ACF CAN header must be left
+        if (msg_length - msg_proc_bytes < AVTP_CAN_HEADER_LEN) {
+            return 0;
+        }
 
         acf_pdu = &pdu[proc_bytes + msg_proc_bytes];
 
@@ -182,7 +201,17 @@ static int new_packet(int sk_fd, int can_socket) {
 
         can_payload = Avtp_Can_GetPayload((Avtp_Can_t*)acf_pdu);
         acf_msg_length = Avtp_Can_GetAcfMsgLength((Avtp_Can_t*)acf_pdu)*4;
-        can_payload_length = Avtp_Can_GetCanPayloadLength((Avtp_Can_t*)acf_pdu);
+
+        // The message must make progress, stay inside the announced payload
+        // and carry a payload that fits into a CAN frame of this variant
+        if (acf_msg_length < AVTP_CAN_HEADER_LEN + Avtp_Can_GetPad((Avtp_Can_t*)acf_pdu) ||
+            acf_msg_length > msg_length - msg_proc_bytes) {
+            return 0;
+        }
+        can_payload_length = acf_msg_length - AVTP_CAN_HEADER_LEN - Avtp_Can_GetPad((Avtp_Can_t*)acf_pdu);
+        if (can_payload_length > (can_variant == AVTP_CAN_FD ? CANFD_MAX_DLEN : CAN_MAX_DLEN)) {
+            return 0;
+        }
         msg_proc_bytes += acf_msg_length;
 
         // Handle EFF Flag
